@@ -359,7 +359,7 @@ ASSUMPTIONS = ['A-scan: canvas::scan builds a rectangular grid with at least one
                'A-derive: derived PartialEq of Cell / Point, Copy/Clone of Point, Rect, HitPolicy',
                'A-std: slice::contains on chars; a Vec\'s length fits usize; error constructors are opaque',
                'R17: Result::and_then / map with a closure = match; R18: iteration over a slice range = indexed loop plus an asserted range check; R19: match scrutinee bound to a local (Verus crashes on guards over an indexed place); R1m: nested iter_mut = indexed loops']
-NOT_DECIDED = {'C19': ['Canvas::plane (grid -> plane), Recognizer::recognize_horizontal_table (plane -> components), Plane::pivot and builder::build (components -> DecisionTable) are not under contract: only the BOUNDED stand-in drawn-tables-are-recognised-as-drawn looks at them',
+NOT_DECIDED = {'C19': ['WHICH cells Canvas::plane produces (its loops are under contract for panic freedom and termination only), Recognizer::recognize_horizontal_table (plane -> components), Plane::pivot and builder::build (components -> DecisionTable) are not under contract: only the BOUNDED stand-in drawn-tables-are-recognised-as-drawn looks at them',
                        'evaluation equivalence with the table loaded from XML; the text loop of canvas::scan',
                        'that the precondition on the plane (A-plane: rectangular, established by Plane::finalize) reaches every function that needs it: panic freedom is proved per function under it, end to end only the BOUNDED stand-in single-character-corruptions-never-panic looks']}
 
